@@ -105,7 +105,7 @@ def check_stage(run, stage, n_items, n_workers, tier):
         ("never-returns-early", U.exists(lambda s: mpmodel.stage_returned_early(ts, s)),
          "the entry point returns before every item is processed and every worker has exited"),
         ("exactly-once", U.exists(lambda s: z3.Or(*[z3.UGT(s["cnt%d" % i], 1) for i in range(ts.I)])), "an item's callback runs twice"),
-        ("no-deadlock", U.exists(lambda s: z3.And(z3.Not(U.enabled(s, progress_only=True)), z3.Not(mpmodel.stage_good_final(ts, s)))),
+        ("no-deadlock", (lambda s: z3.And(z3.Not(U.enabled(s, progress_only=True)), z3.Not(mpmodel.stage_good_final(ts, s))))(U.final()),
          "the stage gets stuck (no process can make progress) before completing"),
     ]
     for qn, bad, what in queries:
